@@ -31,4 +31,22 @@ TEXT = {
   "note": "axioms: the standard real-number axioms + classic + functional_extensionality_dep (Reals/Coquelicot/Interval); Go's libm is not formalised (pointwise validation only)",
   "technique": "Coq proof over Reals (lra/nra/field, exp/ln lemmas) + interval-arithmetic enclosures compared with the implementation",
  },
+ "C17": {
+  "level": "Theorems over the model of neighborhood.go/target.go for every maximum >= 0, score map, iteration order, shuffle, reachability and resolution oracle: the selection never exceeds the maximum and has exactly min(count, reachable) elements; every selected peer is a reachable known target (or seed) other than the host's own string; no left-out reachable peer has a higher score than a selected one; every selected peer is sent the host and every other reachable target; announced targets are kept iff well-formed and on the host's network, never overwriting a score. Distinctness of sender targets is proved under injective resolution and refuted without it (DNS aliasing: a known finding).",
+  "ref": "DESIGN.md section 4, C17",
+  "note": "trusted: Coq kernel, extraction, harness; SplitHostPort, DNS and dialing are oracles; the random cut is compared by membership",
+  "technique": "Coq proof (list induction over the bucket selection) + differential correspondence on refresh rounds of the real Neighborhood",
+ },
+ "C18": {
+  "level": "Theorems over the model of GetTransactionInfo for all holdings, amounts, fees and both modes (no wrap): 405 exactly when the balance is below amount + fee; otherwise distinct, non-zero holdings whose values sum to amount + fee + rest, all of them under consolidation, exactly one when a single output suffices; the selection loop cannot run out of values (the Go index expression cannot panic). Acceptance by the validator is checked end to end on the real pool, and follows in the model from C11's admission theorem.",
+  "ref": "DESIGN.md section 4, C18",
+  "note": "trusted: Coq kernel, extraction, harness; Utxo.Value oracle; HTTP layer outside the model; 'admitted and included' is validated on the real pool (and proved only as the composition of C18_exact with C11_admission_complete's hypotheses)",
+  "technique": "Coq proof (invariant of the greedy closest-value loop) + differential correspondence and end-to-end submission on a real validator",
+ },
+ "C19": {
+  "level": "Theorems over the models of the balance sum and of the progress cascade for all validator answers: the balance is the sum of the per-output values (mod 2^64); the status is confirmed iff the output is listed, else validated iff its transaction is in the first returned block, else sent iff pooled, else rejected; the complete error table (400 only for an undecodable body; which failing step gives 500; what a listed output masks).",
+  "ref": "DESIGN.md section 4, C19",
+  "note": "trusted: Coq kernel, extraction, harness; float division/formatting recomputed by the harness",
+  "technique": "Coq proof (case analysis of the cascade) + differential correspondence with the real controllers against a live and a fault-injecting validator",
+ },
 }
